@@ -17,7 +17,7 @@ RULE = ("complete enumeration of token sequences over a Python vocabulary up to 
 ASSUMPTIONS = ["reference verdict = ast.parse of CPython 3.12.1 (ValueError/MemoryError/RecursionError => skipped)",
                "only accept-when-CPython-rejects is a C02 violation; the other direction belongs to C01"]
 
-VOCAB = ["a", "b", "1", "'s'", "(", ")", "[", "]", "{", "}", ",", ":", ";", ".", "=", "==", "+", "-", "*", "**", "/", "@", "|", "&", "~", "<", ">", "->", ":=", "+=", "...", "%",
+VOCAB = ["a", "b", "1", "'s'", "f'{a}'", "b'y'", "(", ")", "[", "]", "{", "}", ",", ":", ";", ".", "=", "==", "+", "-", "*", "**", "/", "@", "|", "&", "~", "<", ">", "->", ":=", "+=", "...", "%",
          "if", "else", "for", "in", "not", "and", "or", "is", "lambda", "def", "class", "return", "import", "from", "as", "with", "del", "pass", "None", "await", "async",
          "yield", "global", "match", "case", "type", "_", "\n", "try", "except", "raise", "while", "assert"]
 CORE = ["a", "1", "'s'", "(", ")", "[", "]", "{", "}", ",", ":", "=", "*", "**", ".", "-", "if", "else", "for", "in", "not", "lambda", "del", "\n"]
@@ -40,15 +40,13 @@ def in_lexicon(src):
         stripped = re.sub(r"('''|\"\"\")[\s\S]*?\1|'(?:[^'\\\n]|\\.)*'|\"(?:[^\"\\\n]|\\.)*\"", "''", stripped)
         if _LEX_BAD.search(stripped) or re.search(r"(?i)\b[rbuf]*p[rbuf]*['\"]", stripped) or "'" in stripped.replace("''", "") or '"' in stripped:
             return False
-        return "f'" not in src and 'f"' not in src and "F'" not in src and 'F"' not in src
+        return True
     prev = None
     for t in toks:
         if t.type in (pytok.OP, pytok.ERRORTOKEN) and _LEX_BAD.search(t.string):
             return False
         if t.type == pytok.ERRORTOKEN and t.string.strip():
             return False
-        if t.type == pytok.FSTRING_START:
-            return False  # f-strings are C10's domain (their known scanner defects are recorded there)
         if prev is not None and prev.end == t.start:
             if prev.type in (pytok.OP, pytok.ERRORTOKEN) and t.type in (pytok.OP, pytok.ERRORTOKEN) and _LEX_BAD.search(prev.string + t.string):
                 return False
@@ -182,6 +180,18 @@ FENCE_FAMILIES += [
     "async async def f(): pass\n", "async def def f(): pass\n", "class class A: pass\n", "return return\n", "global global a\n", "match x:\n case case 1: pass\n", "type X = = int\n",
     "try try: pass\n", "a if if b else c\n", "[a for for b in c]\n", "[a for b in in c]\n", "[a for b in c if if d]\n", "f(a=b=c)\n", "f(a==)\n", "def f(a=): pass\n", "def f(a: : int): pass\n", "def f() -> -> int: pass\n",
     "x = a[b:c:d:e]\n", "x = a[::, ::, :::]\n", "x = not not\n", "x = ~\n", "x = - -\n", "x = a ** ** b\n", "x = a // // b\n", "x = a @ @ b\n", "x = a < < b\n", "x = a and and b\n", "x = a or or b\n", "x = a not not in b\n", "x = a is not not b\n",
+]
+# implicit concatenation of every ordered pair / some triples of literal kinds (CPython rejects bytes mixed with anything else), and
+# f-string near misses (CPython rejects; the f-string support must not make the parser more liberal)
+_LIT_KINDS = ["b'a'", "rb'b'", "'c'", "f'{d}'", "f'e'", "r'g'", "u'h'", "f''", "B\"i\"", "f'{j!r:>3}'", "'''k'''", "bR'''l'''"]
+FENCE_FAMILIES += [f"x = {a} {b}\n" for a in _LIT_KINDS for b in _LIT_KINDS]
+FENCE_FAMILIES += [f"x = ({a}\n     {b} {c})\n" for a, b, c in [(_LIT_KINDS[i], _LIT_KINDS[j], _LIT_KINDS[k]) for i, j, k in
+                   [(2, 3, 0), (0, 3, 0), (3, 0, 3), (2, 2, 0), (0, 7, 0), (7, 0, 7), (3, 2, 1), (1, 9, 5), (9, 9, 0), (4, 0, 2)]]]
+FENCE_FAMILIES += [
+    "x = f'{'\n", "x = f'}'\n", "x = f'{}'\n", "x = f'{a'\n", "x = f'{a!}'\n", "x = f'{a!x}'\n", "x = f'{!r}'\n", "x = f'{a:{}}'\n", "x = f'{a b}'\n", "x = f'{a}}'\n", "x = f'{{a}'\n",
+    "x = f'{a!r !s}'\n", "x = f'{a:>{'\n", "x = f'{a=!}'\n", "x = f'{=}'\n", "x = f'{a = = }'\n", "x = f'{lambda x: 1}'\n", "x = f'{a:{b:{c:{d}}}}'\n", "x = f'{a;b}'\n", "x = f'{a #}'\n",
+    "x = f'{*a}'\n", "x = f'{**a}'\n", "x = f'{a:=1}'\n" if False else "x = f'{:}'\n", "x = f'{yield}' y\n", "x = f'a' b\n", "x = f'{a}' 1\n", "x = f'{a}'f\n", "x = f'{a' '}'\n", "x = f'{\n}'\n", "x = f'{a\n}'\n",
+    "x = fb'a'\n", "x = bf'a'\n", "x = fu'a'\n", "x = uf'a'\n", "x = ff'a'\n", "x = rfr'a'\n", "x = ub'a'\n", "x = ur'a'\n", "x = bu'a'\n",
 ]
 FENCE_FAMILIES = [s for s in FENCE_FAMILIES if s]
 
